@@ -101,6 +101,25 @@ int main(int argc, char **argv) {
 		fclose(out);
 		return 0;
 	}
+	if (argc >= 4 && !strcmp(argv[2], "lockorder")) {
+		/* pool_drv <out> lockorder <behaviours file>: each line "P J ordered n t1 m1 ... tn mn" - the real pool follows the
+		 * model behaviour's order of mutex acquisitions; events are logged as usual, plus how much of the order was consumed */
+		out = fopen(argv[1], "w");
+		FILE *bf = fopen(argv[3], "r");
+		vs_on_deadlock = on_deadlock;
+		static int lt[4096], lm[4096];
+		int n;
+		NC_ = 1;
+		while (fscanf(bf, "%d %d %d %d", &P_, &J_, &ordered_, &n) == 4) {
+			for (int i = 0; i < n; i++) if (fscanf(bf, "%d %d", &lt[i], &lm[i]) != 2) return 2;
+			vs_lockorder(n, lt, lm);
+			life_cycle(nruns_total, 0, 0, true);
+			fprintf(out, "{\"e\":\"LockOrder\",\"given\":%d,\"left\":%d}\n", n, vs_lockorder_left());
+		}
+		fprintf(stderr, "lockorder: %ld behaviours\n", nruns_total);
+		fclose(out);
+		return 0;
+	}
 	if (argc < 11) { fprintf(stderr, "usage\n"); return 2; }
 	out = fopen(argv[1], "w");
 	int P = atoi(argv[2]), J = atoi(argv[3]), ordered = atoi(argv[4]), NC = atoi(argv[5]);
